@@ -56,6 +56,18 @@ def pick_documents(wd, out, n_gen):
         scored = []
         for d in ds:
             svg = D.concretise(d)
+            if focus == "grad":
+                # prefer documents whose conversion allocates several ids from one template (hook new_id)
+                from picosvg import _verif
+                ev = []
+                _verif.install(lambda n, f: ev.append(f["template"]) if n == "new_id" else None)
+                try:
+                    D.convert(svg, **opts)
+                finally:
+                    _verif.install(None)
+                multi = max([ev.count(t) for t in set(ev)] or [0])
+                scored.append((multi * 10 + len(ev), svg))
+                continue
             score = sum(1 for nd in d["nodes"] if nd["tag"] in ("linearGradient", "radialGradient", "use", "clipPath"))
             if opts.get("allow_text"):   # these entries exist to exercise passed-through text
                 score += 100 * sum(1 for nd in d["nodes"] if nd["tag"] == "text" and nd["d"] >= 2)
@@ -108,6 +120,9 @@ def run(out, tier):
             for s in ["0", "1", "2", "random"]:
                 pid += 1
                 plan.append((pid, s, [d]))
+        # a long-lived process that converts every document twice (history: itself)
+        pid += 1
+        plan.append((pid, "0", list(range(1, ndocs + 1)) * 2))
         for sc in scheds:                  # (ii)+(iii) long-lived processes, orders drawn by TLC
             for s, h in zip(sc["seed"], sc["hist"]):
                 pid += 1
